@@ -4,9 +4,6 @@ fraction of programs is drawn with an empty list so the finding is still hit and
 KNOWN-FINDING).  Avoided draws are counted per id in evidence ('avoided')."""
 
 OPEN = {
-    'dup-pvd-udf': 'duplicate_pvd() on a UDF image shifts the bridge layout: the image cannot be reopened',
-    'dup-pvd-eltorito': 'duplicate_pvd() together with El Torito puts the boot record at sector 18: the image cannot be reopened',
-    'hybrid-efi-count': 'isohybrid with a number of 0xef El Torito entries other than the efi/mac flags expect: write raises PyCdlibInternalError',
 }
 
 
